@@ -1,6 +1,7 @@
 package engine
 
 import (
+	"github.com/KevoDB/kevo/pkg/config"
 	"github.com/KevoDB/kevo/pkg/engine/interfaces"
 )
 
@@ -9,3 +10,6 @@ func (e *EngineFacade) VerifStorage() interfaces.StorageManager { return e.stora
 
 // VerifCompaction exposes the compaction manager.
 func (e *EngineFacade) VerifCompaction() interfaces.CompactionManager { return e.compaction }
+
+// VerifConfig exposes the configuration the engine runs with.
+func (e *EngineFacade) VerifConfig() *config.Config { return e.cfg }
